@@ -205,7 +205,8 @@ Result cppwrap_execute(const Plan &p, const ExecCtx &c) {
     Status st;
     body(cs, st, 0);
     long live1 = g_live.load();
-    tr.add(fmt("op=%d ovl=%d outcome=%d correct=%d allocs=%llu verify=%d", op, ovl, st.outcome, st.correct, (unsigned long long)st.allocs, verify_ok));
+    tr.add(fmt("op=%d ovl=%d outcome=%d correct=%d verify=%d", op, ovl, st.outcome, st.correct, verify_ok));
+    tr.note(fmt("allocations inside the operation: %llu", (unsigned long long)st.allocs));      // a property of the C++ compiler, not a result
     bump(r.cnt, fmt("cpp.op%d", op)); bump(r.cnt, fmt("cpp.overload%d", ovl));
     if (live1 != live0) sink.fail("C15.leak", fmt("%ld allocations made inside the operation were never freed", live1 - live0));
     if (st.outcome == OUT_OTHER) sink.fail("C15.non_std_exception", "something not derived from std::exception was thrown");
@@ -239,7 +240,7 @@ Result cppwrap_execute(const Plan &p, const ExecCtx &c) {
             if (s2.outcome == OUT_OTHER) sink.fail("C15.f9.non_std_exception", fmt("allocation %llu failing: a non-std exception escaped", (unsigned long long)k));
             if (s2.outcome == OUT_NORMAL && !s2.correct) sink.fail("C15.f9.wrong_data", fmt("allocation %llu failing: the operation completed with wrong data (%s)", (unsigned long long)k, s2.detail));
             if (!s2.recovered) sink.fail("C15.f9.not_reusable", fmt("allocation %llu failing: object unusable afterwards", (unsigned long long)k));
-            tr.add(fmt("f9 k=%llu outcome=%d correct=%d", (unsigned long long)k, s2.outcome, s2.correct));
+            tr.note(fmt("f9 k=%llu outcome=%d correct=%d", (unsigned long long)k, s2.outcome, s2.correct));
         }
         bump(r.cnt, "fault.F9", injected);
         bump(r.cnt, "cpp.f9_points", ks.size());
